@@ -233,5 +233,29 @@ class _Skip(Exception):
     pass
 
 
+class CallTimeout(BaseException):
+    """raised by the per-call watchdog; BaseException so that library `except Exception` cannot swallow it"""
+
+
+@contextmanager
+def call_watchdog(ctx, seconds: int, what: str):
+    """generous wall-clock watchdog around one library call.  Firing is INCONCLUSIVE (tally 'timeout:*'), never a violation."""
+    import signal
+
+    def _h(_s, _f):
+        raise CallTimeout(what)
+
+    old = signal.signal(signal.SIGALRM, _h)
+    signal.alarm(seconds)
+    try:
+        yield
+    except CallTimeout:
+        ctx.tally(f"timeout:{what}")
+        ctx.note(f"watchdog fired after {seconds}s in {what}")
+    finally:
+        signal.alarm(0)
+        signal.signal(signal.SIGALRM, old)
+
+
 def skip():
     raise _Skip()
